@@ -230,6 +230,8 @@ func sxOpt(fr *frame, args []value) value {
 		ps.sched.explore = on
 	case "prob":
 		ps.probMode = on
+	case "seeded-rand":
+		ps.seededRand = on
 	case "rr-sched":
 		ps.sched.rr = on
 	case "race":
